@@ -176,8 +176,13 @@ def check(col: Collector, tier: str):
     ok = len(ca) == 1 and src(kwarg(ca[0], "acc_type")) == "init_val.cpp_type()" and src(kwarg(ca[0], "initial_value")) == "init_val"
     col.add("C13.R10", ag.short, "accumulator-takes-the-seed's-type-and-value", ok, "", ag.loc)
     cat = repo.function("check_accumulator_type")
-    s = src(cat.node)
-    col.add("C13.R10", cat.short, "only-numbers-accumulate", all(f"t_str == '{t}'" in s.replace('"', "'") for t in ("float", "double", "int")), "", cat.loc)
+    from sa.core.paths import substituted_paths
+    from sa.props._tr import const_membership
+    rets = [v for items in substituted_paths(cat.node) for k, v, *_ in items if k == "return"]
+    cm = const_membership(rets[0]) if len(rets) == 1 and rets[0] is not None else None
+    a0 = cat.node.args.args[0].arg
+    col.add("C13.R10", cat.short, "only-numbers-accumulate", cm is not None and cm[0] == f"str({a0})" and cm[1] == {"float", "double", "int"},
+            f"the accumulator type test must accept exactly float, double and int (found {cm})", cat.loc)
 
     # ------------------------------------------------------------ R5/R9 constants (shared with C18)
     from sa.props import c18
